@@ -308,7 +308,7 @@ class EnsembleSampler(MarkovChain):
             The model parameters corresponding to the highest observed
             posterior probability as a ``numpy.ndarray``.
         """
-        return self.sample[self.sample_probs.argmax(), :]
+        return self.sample[self.sample_probs.argmax(), :].copy()
 
     def get_parameter(self, index: int, burn=0, thin=1) -> ndarray:
         """
@@ -328,7 +328,7 @@ class EnsembleSampler(MarkovChain):
         :return: \
             Samples for the chosen parameter as a ``numpy.ndarray``.
         """
-        return self.sample[burn::thin, index]
+        return self.sample[burn::thin, index].copy()
 
     def get_probabilities(self, burn=0, thin=1) -> ndarray:
         """
@@ -346,7 +346,7 @@ class EnsembleSampler(MarkovChain):
         :return: \
             Log-probability values as a ``numpy.ndarray``.
         """
-        return self.sample_probs[burn::thin]
+        return self.sample_probs[burn::thin].copy()
 
     def get_sample(self, burn=0, thin=1) -> ndarray:
         """
@@ -363,7 +363,7 @@ class EnsembleSampler(MarkovChain):
         :return: \
             The sample as a ``numpy.ndarray`` of shape ``(n_samples, n_parameters)``.
         """
-        return self.sample[burn::thin, :]
+        return self.sample[burn::thin, :].copy()
 
     def save(self, filename):
         D = {
